@@ -1,7 +1,7 @@
 """C01 — Dhuhr is the instant of local apparent solar noon (engine M; partial: ephemeris accuracy outside)."""
 import datetime
 from ..common import *
-from ..obl import base, jd, transit, policy, wiring
+from ..obl import base, jd, transit, policy, wiring, rounding
 from .. import kreplay, oracle
 from . import kernelprop as kp
 
@@ -47,9 +47,10 @@ def equinox_cases():
 
 def confirm(rep, results):
     cands = [c for x in results for c in x["cands"]]
-    if not cands and not any(x["inconclusive"] for x in results):
+    thorough = getattr(rep, "tier", "quick") == "thorough"
+    if not cands and not any(x["inconclusive"] for x in results) and not thorough:
         return
-    cases = transit_cases(cands) + equinox_cases() + kp.seam_cases(60) + kp.random_cases(200, 60, int(os.environ.get("VERIF_SEED", "0") or 0))
+    cases = transit_cases(cands) + equinox_cases() + kp.seam_cases(60) + kp.random_cases(4000 if thorough else 200, 60, int(os.environ.get("VERIF_SEED", "0") or 0))
     outs = kreplay.run(cases)
     found = {}
     for c, o in zip(cases, outs):
@@ -101,13 +102,13 @@ def run(rep):
         "exact-real semantics for f64 in the transit kernel (tolerance 10 s = 0.0417 deg vs f64 rounding ~1e-13 deg)",
         "chrono year()/month()/day() model (trusted base)"]
     obls = [(jd.jd_formula, (1583, 9999)), (jd.jd_step, "add"), (jd.jd_step, "sub"), (transit.ra_deltas, None), (transit.dhuhr_transit, None),
-            (wiring.get_hours_wiring, None), (wiring.astro_day_wiring, None)]
+            (wiring.get_hours_wiring, None), (wiring.astro_day_wiring, None), (rounding.rounding, ("None", "Dhuhr", -50, 75, 1500))]
     obls += [(policy.policy_clauses, (p, ["dhuhr"], "free")) for p in ("None", "AngleBased", "NearestLatitudeFajrIshaInvalid", "SeventhOfNightFajrIshaAlways",
                                                                           "HalfOfNightFajrIshaAlways", "MinutesFromMaghribFajrIshaInvalid")]
     results = base.run_obligations(rep, obls)
     confirm_jd(rep, results)
     tr = [x for x in results if not x["name"].startswith("JulianDay")]
-    if any((x["cands"] or x["inconclusive"]) for x in tr):
+    if any((x["cands"] or x["inconclusive"]) for x in tr) or rep.tier == "thorough":
         confirm(rep, tr)
     from . import ephsweep
     ephsweep.sweep(rep, {"dhuhr"})
